@@ -294,7 +294,8 @@ class Scheduler:
         return self.policy.pick(self, enabled, cur)
 
     # -- the scheduling point ------------------------------------------
-    def point(self, pred=None, what='', interruptible=False, wake_at=None):
+    def point(self, pred=None, what='', interruptible=False, wake_at=None,
+              force_switch=False):
         c = self.cur
         if self.aborting:
             raise SchedAbort()
@@ -311,6 +312,10 @@ class Scheduler:
         c.interruptible = interruptible
         c.wake_at = wake_at
         nxt = self._choose(c)
+        if force_switch and nxt is c:
+            others = [t for t in self._enabled() if t is not c]
+            if others:
+                nxt = others[self.step % len(others)]
         if nxt is None:
             self._record_deadlock()
             self.aborting = True
@@ -806,15 +811,18 @@ class LinePreempter:
 
     TOOL = 3
 
-    def __init__(self, sched, at):
+    def __init__(self, sched, at, files=None, count=False):
         self.sched = sched
+        self.files = files
+        self.count = count
         self.at = set(int(x) for x in at)
         self.n = 0
         self.active = False
 
     def __enter__(self):
         import sys
-        if not self.at or not hasattr(sys, 'monitoring'):
+        if (not self.at and not self.count) or \
+                not hasattr(sys, 'monitoring'):
             return self
         mon = sys.monitoring
         try:
@@ -831,6 +839,8 @@ class LinePreempter:
         def on_line(code, line):
             if not code.co_filename.startswith(prefix):
                 return mon.DISABLE
+            if owner.files and not code.co_filename.endswith(owner.files):
+                return mon.DISABLE
             cur = sched.cur
             if cur is None or sched.aborting:
                 return None
@@ -840,7 +850,7 @@ class LinePreempter:
             owner.n += 1
             if owner.n in owner.at:
                 sched.point(None, f'line:{os.path.basename(code.co_filename)}'
-                                  f':{line}')
+                                  f':{line}', force_switch=True)
             return None
 
         mon.register_callback(self.TOOL, mon.events.LINE, on_line)
